@@ -124,9 +124,9 @@ SubstList(s, v0) ==
       items == v.items
   IN
   IF Len(items) > 0 /\ \A i \in DOMAIN items : IsEll(items[i]) THEN SErr("SubstitutionError")
-  ELSE IF IsNone(s.elems) /\ IsNone(s.type) /\ ~DEV_PlaceholderBetweenElements
+  ELSE IF IsNone(s.elems) /\ ~DEV_PlaceholderBetweenElements
           /\ \E i \in DOMAIN items : IsEll(items[i]) /\ 1 < i /\ i < Len(items)
-  THEN SErr("SubstitutionError")             \* `...` must be first or last element
+  THEN SErr("SubstitutionError")             \* `...` must be first or last element (typed or not)
   ELSE IF IsNone(s.elems) /\ IsNone(s.type)
   THEN LET r == SubFromNativeAll(items, 1, <<>>)
        IN  IF r.ok THEN SOk([s EXCEPT !.elems = Some(r.s)]) ELSE r
